@@ -299,6 +299,9 @@ impl Model {
         let snap = if self.want_snaps && self.elided { Some(Box::new(self.snap())) } else { None };
         self.frames.push(Frame { target, snap });
         let before: Vec<Id> = self.obligations.iter().copied().collect();
+        // the precondition "recorded <= held" is about the handles as they are now (a
+        // stored handle may have just been redirected by make_mut)
+        self.recompute_p();
         self.handle_removed(target);
         self.obligations.iter().copied().filter(|o| !before.contains(o)).collect()
     }
